@@ -842,3 +842,147 @@ B('h_report_mw_method_resets_other_instance', ['C19'], 'R19.d',
         ret['reset'] = True
         return ret
 '''))
+
+# ------------------------------------------------------------------------------------------------ round 4 (v-refactorings)
+# (1) the try/except/finally of StatsMiddleware.request as a one-yield context manager that hands a collector (the append of a
+#     local one-element list) to the block and reads the response back from the list behind the yield
+_ST_IMPORT = 'import datetime\n'
+_ST_CM_IMPORT = 'import datetime\nfrom contextlib import contextmanager\n'
+
+
+def _cm_request(pre='', read="            resp = responses[0]\n", handler_tail='            raise\n', table='self.route_hits', give='responses.append',
+                block='            resp = next()\n            got_response(resp)\n'):
+    return [(STATS, _ST_IMPORT, _ST_CM_IMPORT),
+            (STATS, _ST_REQUEST, '''        with self._hit_recorded(request, _route) as got_response:
+''' + block + '''        return resp
+
+    @contextmanager
+    def _hit_recorded(self, request, _route):
+        start_time = time.time()
+        responses = []
+''' + pre + '''        try:
+            yield ''' + give + '''
+''' + read + '''            resp_status = repr(getattr(resp, 'status_code', resp.__class__.__name__))
+            resp_mime_type = (getattr(resp, 'content_type', None) or '').partition(';')[0]
+        except Exception as e:
+            resp_status = repr(getattr(e, 'code', e.__class__.__name__))
+            resp_mime_type = getattr(e, 'content_type', '').partition(';')[0]
+''' + handler_tail + '''        finally:
+            end_time = time.time()
+            duration = end_time - start_time
+            hit = Hit(start_time,
+                      request.path,
+                      _route.pattern,
+                      resp_status,
+                      duration,
+                      resp_mime_type)
+            ''' + table + '''[_route][resp_status].add(hit)
+        return
+''')]
+
+
+T('h4_request_as_context_manager', ['C19', 'C15'], *_cm_request())
+T('h4_request_as_context_manager_last_index', ['C19', 'C15'], *_cm_request(read="            resp = responses[-1]\n"))
+B('h4_cm_table_fetched_before_the_block', ['C19'], 'R19.a',
+  *_cm_request(pre='        table = self.route_hits\n', table='table'))
+B('h4_cm_swallows_the_exception', ['C19'], 'R19.a', *_cm_request(handler_tail=''))
+B('h4_cm_status_of_something_else', ['C19'], 'R19.a',
+  *_cm_request(read="            resp = responses\n"))
+B('h4_cm_records_in_the_block_too', ['C19'], 'R19.a',
+  *_cm_request(block='            resp = next()\n            got_response(resp)\n'
+                     '            self.route_hits[_route][repr(resp.status_code)].add(Hit(0.0, request.path, _route.pattern, repr(resp.status_code), 0.0, \'\'))\n'))
+# the collector is called twice: the list is no longer known to hold the response first (not followed: no verdict may be 'fine')
+B('h4_cm_collector_fed_twice', ['C19'], 'R19.a',
+  *_cm_request(block='            got_response(request)\n            resp = next()\n            got_response(resp)\n'))
+
+# (2) Reservoir.add as a template method: count, sample, then a do-nothing hook the subclass overrides (no add() of its own)
+_ST_SUB_ADD = '''    def add(self, hit):
+        super(RouteStatReservoir, self).add(hit)
+        self.last_hit = hit.start_time
+        self.total_duration += hit.duration
+'''
+_ST_TEMPLATE_ADD = '''    def add(self, val):
+        self._total_count += 1
+        self._sample(val)
+        self._note_added(val)
+        return
+
+    def _sample(self, val):
+        if len(self._data) < self._cap:
+            self._data.append(val)
+            return
+
+        idx = fast_randint(0, self._total_count)
+        if idx < self._cap:
+            self._data[idx] = val
+        return
+
+    def _note_added(self, val):
+        return
+'''
+
+
+def _template(hook_body='', add=_ST_TEMPLATE_ADD):
+    return [(STATS, _ST_ADD, add),
+            (STATS, _ST_SUB_ADD, '''    def _note_added(self, hit):
+''' + hook_body + '''        self.last_hit = hit.start_time
+        self.total_duration += hit.duration
+''')]
+
+
+T('h4_add_template_method', ['C19', 'C15'], *_template())
+T('h4_add_template_method_hook_first', ['C19'],
+  *_template(add=_ST_TEMPLATE_ADD.replace('        self._sample(val)\n        self._note_added(val)\n', '        self._note_added(val)\n        self._sample(val)\n')))
+B('h4_template_hook_delegates_again', ['C19'], 'R19.c', *_template(hook_body='        super(RouteStatReservoir, self).add(hit)\n'))
+B('h4_template_hook_calls_base_add', ['C19'], 'R19.c', *_template(hook_body='        Reservoir.add(self, hit)\n'))
+B('h4_template_hook_re_adds_on_self', ['C19'], 'R19.c',
+  *_template(hook_body='        if self.last_hit is None:\n            self.add(hit)\n'))
+B('h4_template_counts_in_hook_too', ['C19'], 'R19.c', *_template(hook_body='        self._total_count += 1\n'))
+B('h4_template_sample_skips_count', ['C19'], 'R19.c',
+  *_template(add=_ST_TEMPLATE_ADD.replace('        self._total_count += 1\n        self._sample(val)\n',
+                                          '        if len(self._data) < self._cap:\n            self._total_count += 1\n        self._sample(val)\n')))
+B('h4_override_adds_on_self', ['C19'], 'R19.c',
+  (STATS, '        super(RouteStatReservoir, self).add(hit)\n', '        super(RouteStatReservoir, self).add(hit)\n        if hit.duration > 1e9:\n            self.add(hit)\n'))
+
+# (3) the injectables of a bound route assembled in one helper method (store under the key instead of a dict display)
+_RT_EXECUTE = '''    def execute(self, request, **kwargs):
+        injectables = {'_route': self,
+                       'request': request,
+                       '_application': self.bound_apps[-1]}
+        injectables.update(self.resources)
+        injectables.update(kwargs)
+        return inject(self._execute, injectables)
+'''
+_RT_EXECUTE_ERR = '''        injectables = {'_route': self,
+                       '_error': _error,
+                       'request': request,
+                       '_application': self.bound_apps[-1]}
+        injectables.update(self.resources)
+        injectables.update(kwargs)
+'''
+
+
+def _inj_helper(app="self.bound_apps[-1]"):
+    return [(R, _RT_EXECUTE, '''    def _make_inj(self, request, overrides, **extra):
+        injectables = {'_route': self}
+        injectables.update(extra)
+        injectables['request'] = request
+        injectables['_application'] = ''' + app + '''
+        injectables.update(self.resources)
+        injectables.update(overrides)
+        return injectables
+
+    def execute(self, request, **kwargs):
+        injectables = self._make_inj(request, kwargs)
+        return inject(self._execute, injectables)
+'''), (R, _RT_EXECUTE_ERR, '        injectables = self._make_inj(request, kwargs, _error=_error)\n')]
+
+
+T('h4_injectables_in_helper_method', ['C19'], *_inj_helper())
+T('h4_injectables_update_keyword', ['C19'],
+  (R, _RT_EXECUTE, _RT_EXECUTE.replace("""        injectables = {'_route': self,
+                       'request': request,
+                       '_application': self.bound_apps[-1]}
+""", """        injectables = {'_route': self, 'request': request}
+        injectables.update(_application=self.bound_apps[-1])
+""")))
